@@ -344,3 +344,53 @@ Proof.
   cbn [tokens_of prep strip filter map is_ws_tok negb norm_tok app].
   repeat (rewrite <- !app_assoc; cbn [app]). reflexivity.
 Qed.
+
+(* ------------------------------------------------------------------------------------------ *)
+(* converse of one_object_per_fingerprint: if no fingerprint gets two objects, equal fingerprints
+   were contiguous in the input *)
+Lemma dedup_in_conv : forall l x, In x l -> In x (dedup_adj l).
+Proof.
+  induction l as [|f r IH]; intros x H; [exact H|]. cbn [dedup_adj].
+  destruct H as [<-|H].
+  - destruct (dedup_adj r) as [|h t]; [now left|]. destruct (N.eqb_spec f h) as [->|E]; now left.
+  - specialize (IH x H). destruct (dedup_adj r) as [|h t]; [destruct IH|].
+    destruct (N.eqb f h); [exact IH|now right].
+Qed.
+Lemma nodup_dedup_tail : forall f r, NoDup (dedup_adj (f :: r)) -> NoDup (dedup_adj r).
+Proof.
+  intros f r H. cbn [dedup_adj] in H. destruct (dedup_adj r) as [|h t]; [constructor|].
+  destruct (N.eqb f h); [exact H|]. now inversion H.
+Qed.
+Lemma dedup_dup : forall f q, dedup_adj (f :: f :: q) = dedup_adj (f :: q).
+Proof.
+  intros f q. destruct (dedup_hd f q) as [t Ht]. change (dedup_adj (f :: f :: q)) with
+    (match dedup_adj (f :: q) with h :: t => if N.eqb f h then h :: t else f :: h :: t | [] => [f] end).
+  rewrite Ht, N.eqb_refl. reflexivity.
+Qed.
+Lemma nodup_dedup_head : forall f r, NoDup (dedup_adj (f :: r)) -> In f r -> exists r', r = f :: r'.
+Proof.
+  intros f [|y r'] H Hin; [destruct Hin|]. destruct (N.eqb_spec f y) as [->|E]; [eauto|]. exfalso.
+  destruct (dedup_hd y r') as [t Ht]. cbn [dedup_adj] in H. cbn [dedup_adj] in Ht. rewrite Ht in H.
+  destruct (N.eqb_spec f y) as [|_]; [contradiction|]. inversion H as [|? ? Hn _]; subst. apply Hn.
+  rewrite <- Ht. apply (dedup_in_conv (y :: r') f Hin).
+Qed.
+Lemma nodup_dedup_between : forall f b c, NoDup (dedup_adj (f :: b ++ f :: c)) -> forall x, In x b -> x = f.
+Proof.
+  intros f. induction b as [|y b IH]; intros c H x Hx; [destruct Hx|].
+  destruct (nodup_dedup_head f ((y :: b) ++ f :: c) H) as [r' Hr].
+  { apply in_or_app. right. now left. }
+  cbn [app] in Hr. injection Hr as -> _. cbn [app] in H. rewrite dedup_dup in H.
+  destruct Hx as [<-|Hx]; [reflexivity|]. exact (IH c H x Hx).
+Qed.
+Lemma nodup_dedup_contiguous : forall l, NoDup (dedup_adj l) -> fps_contiguous l.
+Proof.
+  induction l as [|g r IH]; intros H a f b c E x Hx.
+  - destruct a; discriminate E.
+  - destruct a as [|a0 a].
+    + cbn [app] in E. injection E as -> ->. exact (nodup_dedup_between f b c H x Hx).
+    + cbn [app] in E. injection E as -> ->. exact (IH (nodup_dedup_tail _ _ H) a f b c eq_refl x Hx).
+Qed.
+Theorem one_object_iff_contiguous : forall es, NoDup (heads es) <-> fps_contiguous (map e_fp es).
+Proof.
+  intros es. rewrite heads_dedup. split; [apply nodup_dedup_contiguous|apply NoDup_dedup_adj].
+Qed.
